@@ -25,7 +25,7 @@ type rstore struct {
 	gets    []cid.Cid
 	puts    []cid.Cid
 	putLog  []putEv // every successful Put in order (what was in the store at some earlier moment)
-	failPut bool // concurrent mode: Put may fail as an environment choice
+	failPut bool    // concurrent mode: Put may fail as an environment choice
 }
 
 type putEv struct {
